@@ -403,6 +403,13 @@ func listenTrial(r *vh.Run, bin string, i int) {
 		}
 		defer conn.Close()
 		fmt.Fprintf(conn, "PATCH %s HTTP/1.1\r\nHost: 127.0.0.1\r\nContent-Type: application/octet-stream\r\nContent-Length: 1000\r\n\r\nhello", loc)
+		// a second client of the same kind whose request HOLDS its repository while the body is awaited (a manifest PUT):
+		// closing the store waits for such a request, so it has to be cut off first
+		if conn2, err := net.Dial("tcp", fmt.Sprintf("127.0.0.1:%d", port)); err == nil {
+			defer conn2.Close()
+			fmt.Fprintf(conn2, "PUT /v2/s/manifests/stalled HTTP/1.1\r\nHost: 127.0.0.1\r\nContent-Type: application/vnd.oci.image.manifest.v1+json\r\nContent-Length: 500\r\n\r\n{\"schemaVersion\":2,")
+			r.Count("stalled_client_manifest_puts", 1)
+		}
 		time.Sleep(150 * time.Millisecond) // the handler is reading the body by now (or will be: the bound below is generous either way)
 		_ = p.cmd.Process.Signal(syscall.SIGTERM)
 		r.Count("listen_trials", 1)
@@ -424,7 +431,7 @@ func listenTrial(r *vh.Run, bin string, i int) {
 			case <-time.After(10 * time.Second):
 			}
 			wit["exits_once_the_client_is_gone"] = late
-			fail("sigterm:waits-for-a-client-that-never-finishes", fmt.Sprintf("SIGTERM while a client holds a PATCH open (announced 1000 bytes, sent 5): the process is still running %s later - it ends only when that client goes away (it did then: %v)", bound, late), p)
+			fail("sigterm:waits-for-a-client-that-never-finishes", fmt.Sprintf("SIGTERM while two clients hold requests open (a PATCH that announced 1000 bytes and sent 5, a manifest PUT that announced 500 and sent 19): the process is still running %s later - it ends only when that client goes away (it did then: %v)", bound, late), p)
 			return
 		}
 		// storage intact: no upload file of the cut-off session is left, a new process serves the acknowledged blob
